@@ -88,7 +88,7 @@ def _cc_spectrum_contract(unit, qe_unit):
         ctx.oblige(name % 'qe_spectrum_sampled_once', ok, 'structure', info={'calls': len(calls)})
         if not ok:
             return None
-        ctx.oblige(name % 'sampled_in_the_callers_wavelength_unit', calls[0]['waveunit'] == unit,
+        ctx.oblige(name % 'sampled_in_the_callers_wavelength_unit', calls[0]['waveunit'] == unit, 'structure',
                    info={'requested': calls[0]['waveunit'], 'caller': unit})
         r, cc = ints(ctx, 'r', 'c')
         q = lambda i: Rm.interp_value(ctx, env['qe'], calls[0]['method'], calls[0]['fill'], env0['wave'].at((i,)))
